@@ -58,15 +58,19 @@ TCoordFetch == /\ Cur("CoordFetch") /\ CoordFetch(E.g, E.t, E.p) /\ Keep
 
 \* tools: the logged projection (through the public interface) against the model's
 ProjMatch(lp, mp) == /\ lp.topics = mp.full.topics /\ ToSet(lp.next) = mp.full.next /\ ToSet(lp.coff) = mp.full.coff
-                     /\ ToSet(lp.groups) = {<<x[1], x[2]>> : x \in mp.full.groups}
-                     /\ ToSet(lp.cfgs) = mp.cfgs
+                     /\ ToSet(lp.groups) = {<<x[1], x[2]>> : x \in mp.glist}      \* as listed by ListConsumerGroups
+
 TTool == /\ Cur("Tool") /\ Tool(E.name, E.shape) /\ Keep
          /\ \A i \in Impls : ProjMatch(E[i].before, last'[i].before) /\ ProjMatch(E[i].after, last'[i].after)
 
+\* the topic configurations and the groups (FetchTopicConfig / FetchConsumerGroup) are read once, at the end of a tools schedule (reading them earlier could itself write)
+TFinalCfg == /\ Cur("FinalCfg") /\ UNCHANGED vars /\ Keep
+             /\ \A i \in Impls : /\ ToSet(E[i].cfgs) = {<<t, CfgVal(st[i], t).err, CfgVal(st[i], t).val>> : t \in Topics}
+                                 /\ ToSet(E[i].groups) = {<<g, GroupVal(st[i], g)[1]>> : g \in Groups}
 Consumed == TLCSet(7, IF TLCGet(7) < l THEN l ELSE TLCGet(7))
 TNext == (TReset \/ TCreateTopic \/ TDeleteTopic \/ TCreatePartitions \/ TUpdateOffsets \/ TNextOffset \/ TMetadata \/ TRefresh
           \/ TCommit \/ TFetchOffset \/ TListOffsets \/ TPutGroup \/ TFetchGroup \/ TListGroups \/ TDeleteGroup \/ TUpdateConfig
-          \/ TFinal \/ TCoordCommit \/ TCoordFetch \/ TTool) /\ Consumed
+          \/ TFinal \/ TFinalCfg \/ TCoordCommit \/ TCoordFetch \/ TTool) /\ Consumed
 TSpec == TInit /\ [][TNext]_tvars
 Reached == PrintT(<<"CONF", ToJson([reached |-> TLCGet(7), total |-> Len(TraceLog)])>>)
 ====
